@@ -533,7 +533,7 @@ pub fn run(args: &Args) -> i32 {
         cases.push(Case { connect_id, prior: 0, kind: Kind::InUni, payload_len: 40, fin: true, async_read: false, enabled: false, sid_form: None, split: false });
     }
     let seed = args.seed;
-    let deadline = std::time::Instant::now() + std::time::Duration::from_secs(if thorough { 1500 } else { 35 });
+    let deadline = std::time::Instant::now() + std::time::Duration::from_secs(if thorough { 1500 } else { 55 });
     let accs = explore::par::run(&cases, Acc::new, |_, case, acc| {
         let incoming = matches!(case.kind, Kind::InUni | Kind::InBidi);
         // uniform modes
